@@ -9,9 +9,9 @@ proves that the executable resolution is SOUND for every project, every fuel, ev
 declaration the walker returns is the one the rules derive; when the rules derive nothing, the walker returns `none`
 (a diagnostic), never some other declaration.
 
-Proved at full strength: soundness of `resolveType` (plain and default-imported names, all re-export chains,
-cyclic `export *` included). Not proved (decided by the correspondence): soundness of `resolveQual` (namespace
-paths), completeness on unambiguous acyclic projects, and `flatten (split p σ) ≃ p`.
+Proved at full strength: soundness of `resolveType`, `resolveQual` and `resolveName` (plain, default-imported,
+qualified `A.B.N` and `import("…").A.N` names; all re-export chains, cyclic `export *` included). Not proved (decided by
+the correspondence): completeness on unambiguous acyclic projects, and `flatten (split p σ) ≃ p`.
 -/
 namespace BeffVerif.C09
 open BeffVerif Modules
@@ -166,6 +166,189 @@ theorem resolveType_sound (p : Project) : ∀ fuel f n r,
             cases o with
             | none => simp at h
             | some e => exact .named hn hf ((getType_sound p k).1 _ _ _ _ _ hg) (hExp e r h)
+
+-- ---------- namespace names (`import * as NS`, `export * as NS`, re-exported namespaces) ----------
+mutual
+/-- file `f` exports, under the name `n`, the namespace of file `g` -/
+inductive QExports (p : Project) : String → String → String → Prop
+  | named {f m n e g} : n ≠ "default" → p.file f = some m → StarFinds p m n e → QDenotes p e g → QExports p f n g
+  | dfltIdent {f m n' g} : p.file f = some m → m.dflt = some (.ident n') → QScope p f n' g → QExports p f "default" g
+  | dfltRenamed {f m e g} : p.file f = some m → m.dflt = some (.renamed e) → QDenotes p e g → QExports p f "default" g
+inductive QDenotes (p : Project) : Exp → String → Prop
+  | starOf {g} : QDenotes p (.starOf g) g
+  | something {n f g} : QExports p f n g → QDenotes p (.something n f) g
+/-- inside file `f` the name `n` denotes the namespace of file `g` -/
+inductive QScope (p : Project) : String → String → String → Prop
+  | star {f m n g} : p.file f = some m → get m.locals n = none → get m.imports n = some (.star g) → QScope p f n g
+  | named {f m n orig f' g} : p.file f = some m → get m.locals n = none → get m.imports n = some (.named orig f') →
+      QExports p f' orig g → QScope p f n g
+  | dflt {f m n f' g} : p.file f = some m → get m.locals n = none → get m.imports n = some (.dflt f') →
+      QExports p f' "default" g → QScope p f n g
+end
+
+/-- **Soundness of namespace resolution** (`QualifiedTypeWalker`) -/
+theorem resolveQual_sound (p : Project) : ∀ fuel f n g,
+    (resolveQual p fuel f n .loc = some g → QScope p f n g) ∧
+    (resolveQual p fuel f n .exp = some g → QExports p f n g) := by
+  intro fuel
+  induction fuel with
+  | zero => intro f n g; simp [resolveQual]
+  | succ k ih =>
+    have hExp : ∀ e g, fromExpQ (resolveQual p k) e = some g → QDenotes p e g := by
+      intro e g h
+      cases e with
+      | decl f' n' => simp [fromExpQ] at h
+      | starOf g' => simp only [fromExpQ, Option.some.injEq] at h; rw [← h]; exact .starOf
+      | something n' f' => exact .something ((ih f' n' g).2 h)
+    have hDflt : ∀ f g, fromDefaultQ p (resolveQual p k) f = some g → QExports p f "default" g := by
+      intro f g h
+      unfold fromDefaultQ at h
+      cases hf : p.file f with
+      | none => rw [hf] at h; simp at h
+      | some fm =>
+        rw [hf] at h
+        simp only at h
+        cases hd : fm.dflt with
+        | none => rw [hd] at h; simp at h
+        | some d =>
+          rw [hd] at h
+          cases d with
+          | ident n' => exact .dfltIdent hf hd ((ih f n' g).1 h)
+          | renamed e => exact .dfltRenamed hf hd (hExp e g h)
+    intro f n g
+    constructor
+    · intro h
+      rw [resolveQual] at h
+      cases hf : p.file f with
+      | none => rw [hf] at h; simp at h
+      | some m =>
+        rw [hf] at h
+        simp only at h
+        cases hl : get m.locals n with
+        | some d => rw [hl] at h; simp at h
+        | none =>
+          rw [hl] at h
+          simp only at h
+          cases hi : get m.imports n with
+          | none => rw [hi] at h; simp at h
+          | some imp =>
+            rw [hi] at h
+            cases imp with
+            | named orig f' => exact .named hf hl hi ((ih f' orig g).2 h)
+            | star f' => simp only [Option.some.injEq] at h; rw [← h]; exact .star hf hl hi
+            | dflt f' => exact .dflt hf hl hi (hDflt f' g h)
+    · intro h
+      rw [resolveQual] at h
+      cases hf : p.file f with
+      | none => rw [hf] at h; simp at h
+      | some m =>
+        rw [hf] at h
+        simp only at h
+        by_cases hn : n = "default"
+        · subst hn
+          simp only [beq_self_eq_true, if_true] at h
+          exact hDflt f g h
+        · have : (n == "default") = false := by simpa using hn
+          rw [this] at h
+          simp only [Bool.false_eq_true, if_false] at h
+          cases hg : getType p k [] m n with
+          | mk o v =>
+            rw [hg] at h
+            cases o with
+            | none => simp at h
+            | some e => exact .named hn hf ((getType_sound p k).1 _ _ _ _ _ hg) (hExp e g h)
+
+/-- a dotted path of namespace names, each an export of the previous namespace -/
+inductive QPath (p : Project) : String → List String → String → Prop
+  | nil {f} : QPath p f [] f
+  | cons {f s g rest h} : QExports p f s g → QPath p g rest h → QPath p f (s :: rest) h
+
+theorem qualPath_sound (p : Project) (fuel : Nat) : ∀ (segs : List String) (f h : String),
+    qualPath p fuel f .exp segs = some h → QPath p f segs h := by
+  intro segs
+  induction segs with
+  | nil => intro f h hq; simp only [qualPath, Option.some.injEq] at hq; rw [← hq]; exact .nil
+  | cons s rest ih =>
+    intro f h hq
+    simp only [qualPath] at hq
+    cases hr : resolveQual p fuel f s .exp with
+    | none => rw [hr] at hq; simp at hq
+    | some g =>
+      rw [hr] at hq
+      exact .cons ((resolveQual_sound p fuel f s g).2 hr) (ih g h hq)
+
+/-- what a written name denotes, declaratively: a plain name through the scope of the file; `A.B.N` through the
+namespace `A` of the scope, the exported namespaces `B…`, and the export `N` of the last one; `import("f").A.N` the
+same starting from the exports of `f` -/
+inductive NameDenotes (p : Project) (file : String) : Name → String × String → Prop
+  | plain {n r} : Scope p file n r → NameDenotes p file (.plain [n]) r
+  | qualified {s rest f g last r} : QScope p file s f → QPath p f rest g → Exports p g last r →
+      NameDenotes p file (.plain (s :: rest ++ [last])) r
+  | imported {f segs g last r} : QPath p f segs g → Exports p g last r →
+      NameDenotes p file (.imp (some f) (segs ++ [last])) r
+
+theorem dropLast_append_getLast {α : Type} (l : List α) (x : α) (h : l.getLast? = some x) : l.dropLast ++ [x] = l := by
+  induction l with
+  | nil => simp at h
+  | cons a as ih =>
+    cases as with
+    | nil => simp at h; simp [h]
+    | cons b bs =>
+      simp only [List.getLast?_cons_cons] at h
+      simp only [List.dropLast_cons₂, List.cons_append, ih h]
+
+/-- **Soundness of name resolution**: plain, qualified and `import("…")` names all denote what the rules derive -/
+theorem resolveName_sound (p : Project) (fuel : Nat) (file : String) (nm : Name) (r : String × String)
+    (h : resolveName p fuel file nm = some r) : NameDenotes p file nm r := by
+  cases nm with
+  | plain segs =>
+    cases segs with
+    | nil => simp [resolveName] at h
+    | cons s rest =>
+      cases rest with
+      | nil => exact .plain ((resolveType_sound p fuel file s r).1 h)
+      | cons s2 rest2 =>
+        simp only [resolveName] at h
+        cases hq : resolveQual p fuel file s .loc with
+        | none => rw [hq] at h; simp at h
+        | some f =>
+          rw [hq] at h
+          simp only at h
+          cases hp : qualPath p fuel f .exp (s2 :: rest2).dropLast with
+          | none => rw [hp] at h; simp at h
+          | some g =>
+            rw [hp] at h
+            simp only at h
+            cases hl : (s2 :: rest2).getLast? with
+            | none => rw [hl] at h; simp at h
+            | some last =>
+              rw [hl] at h
+              simp only [Option.bind_some] at h
+              have e := dropLast_append_getLast (s2 :: rest2) last hl
+              rw [← e]
+              exact .qualified ((resolveQual_sound p fuel file s f).1 hq) (qualPath_sound p fuel _ f g hp)
+                ((resolveType_sound p fuel g last r).2 h)
+  | imp fo segs =>
+    cases fo with
+    | none => simp [resolveName] at h
+    | some f =>
+      cases segs with
+      | nil => simp [resolveName] at h
+      | cons s rest =>
+        simp only [resolveName] at h
+        cases hp : qualPath p fuel f .exp (s :: rest).dropLast with
+        | none => rw [hp] at h; simp at h
+        | some g =>
+          rw [hp] at h
+          simp only at h
+          cases hl : (s :: rest).getLast? with
+          | none => rw [hl] at h; simp at h
+          | some last =>
+            rw [hl] at h
+            simp only [Option.bind_some] at h
+            have e := dropLast_append_getLast (s :: rest) last hl
+            rw [← e]
+            exact .imported (qualPath_sound p fuel _ f g hp) ((resolveType_sound p fuel g last r).2 h)
 
 /-- clause 3, base case: a name that is neither declared nor imported in the file resolves to nothing (the compiler
 reports `CannotNotResolveType`) — whatever other files declare under that name -/
